@@ -53,12 +53,30 @@ var flowFiles = []string{
 
 var flowEntries = []string{"Install.RunWithContext", "Upgrade.RunWithContext", "Rollback.Run", "Uninstall.Run"}
 
-// receiver / parameter type name -> class
+// receiver / parameter / result type -> class.  Types of this package by bare name, imported
+// types by qualified name (kubernetes.Interface is not kube.Interface).
 var flowTypeClass = map[string]string{
 	"Install": "action", "Upgrade": "action", "Rollback": "action", "Uninstall": "action", "History": "action",
-	"Configuration": "cfg", "Storage": "storage", "Interface": "kube", "Waiter": "waiter",
-	"PostRenderer": "post", "ServerResourcesInterface": "disc", "CachedDiscoveryInterface": "disc",
-	"RESTClientGetter": "getter", "Driver": "driver",
+	"Configuration": "cfg", "Storage": "storage", "RESTClientGetter": "getter",
+	"kube.Interface": "kube", "kube.Waiter": "waiter", "postrender.PostRenderer": "post",
+	"discovery.ServerResourcesInterface": "disc", "discovery.CachedDiscoveryInterface": "disc",
+	"discovery.DiscoveryInterface": "disc", "driver.Driver": "driver", "storage.Storage": "storage",
+	"action.Configuration": "cfg",
+}
+
+// flowQualName: Name for a type of the package itself, pkg.Name for an imported one
+func flowQualName(t ast.Expr) string {
+	switch v := t.(type) {
+	case *ast.StarExpr:
+		return flowQualName(v.X)
+	case *ast.Ident:
+		return v.Name
+	case *ast.SelectorExpr:
+		if id, ok := v.X.(*ast.Ident); ok {
+			return id.Name + "." + v.Sel.Name
+		}
+	}
+	return ""
 }
 
 // field name on a value of a class -> class
@@ -142,11 +160,15 @@ type flowFn struct {
 	recv   string // receiver variable
 	rclass string
 	params []string
+	ret    string // type name of the first result
 }
 
 type flowCtx struct {
 	fns     map[string]*flowFn
 	boolFld map[string]map[string]bool // type -> bool fields
+	bodies  map[string][]flowNode      // built flows (memo)
+	busy    map[string]bool
+	retSets map[string][]string // function returning a nested action: the options it set on it
 }
 
 type flowScope struct {
@@ -205,6 +227,42 @@ func (s *flowScope) classOf(e ast.Expr) string {
 		if sel, ok := v.Fun.(*ast.SelectorExpr); ok {
 			if p, ok := flowPrims[s.classOf(sel.X)+"."+sel.Sel.Name]; ok {
 				return p.result
+			}
+		}
+		// a function of the table: the class of its declared result
+		if key := s.calleeKey(v); key != "" {
+			ret := s.ctx.fns[key].ret
+			if flowTypeClass[ret] == "action" {
+				return "nested:" + ret
+			}
+			return flowTypeClass[ret]
+		}
+	}
+	return ""
+}
+
+// calleeKey: the table function a call goes to ("" when it is none)
+func (s *flowScope) calleeKey(c *ast.CallExpr) string {
+	switch f := c.Fun.(type) {
+	case *ast.Ident:
+		if _, ok := s.ctx.fns[f.Name]; ok {
+			return f.Name
+		}
+	case *ast.SelectorExpr:
+		typ := ""
+		switch s.classOf(f.X) {
+		case "action":
+			if s.isRecv(f.X) {
+				typ = s.recvType()
+			}
+		case "cfg":
+			typ = "Configuration"
+		case "storage":
+			typ = "Storage"
+		}
+		if typ != "" {
+			if _, ok := s.ctx.fns[typ+"."+f.Sel.Name]; ok {
+				return typ + "." + f.Sel.Name
 			}
 		}
 	}
@@ -393,7 +451,7 @@ func (s *flowScope) expr(e ast.Expr) []flowNode {
 		return append(s.expr(v.Key), s.expr(v.Value)...)
 	case *ast.CompositeLit:
 		out := s.exprs(v.Elts)
-		if flowTypeClass[flowTypeName(v.Type)] == "action" {
+		if flowTypeClass[flowQualName(v.Type)] == "action" {
 			return out // an action struct keeps its configuration: followed through the field class action.cfg
 		}
 		for _, el := range v.Elts {
@@ -453,10 +511,12 @@ func (s *flowScope) fnCall(key string, args []ast.Expr) flowNode {
 	return n
 }
 
-func flowParamTypes(fd *ast.FuncDecl) []string {
+func flowParamTypes(fd *ast.FuncDecl) []string { return flowParamTypesBy(fd, flowTypeName) }
+
+func flowParamTypesBy(fd *ast.FuncDecl, name func(ast.Expr) string) []string {
 	var out []string
 	for _, f := range fd.Type.Params.List {
-		t := flowTypeName(f.Type)
+		t := name(f.Type)
 		if _, ok := f.Type.(*ast.Ellipsis); ok {
 			t = "..."
 		}
@@ -623,6 +683,19 @@ func (s *flowScope) assign(lhs, rhs []ast.Expr, define bool) []flowNode {
 				s.class[lv.Name] = c
 				if strings.HasPrefix(c, "nested:") {
 					s.ntype[lv.Name] = strings.TrimPrefix(c, "nested:")
+					s.nested[lv.Name] = nil
+					if ce, isCall := r.(*ast.CallExpr); isCall && flowCtorClass[flowCallName(ce.Fun)] == "" {
+						if key := s.calleeKey(ce); key != "" {
+							// built by a helper of the table: the options the helper set, as far as
+							// they are stated in terms of the same receiver; otherwise all unknown
+							s.ctx.build(key)
+							sets, known := s.ctx.retSets[key]
+							if !known || s.ctx.fns[key].rclass != "action" || flowTypeName(s.ctx.fns[key].decl.Recv.List[0].Type) != s.recvType() {
+								sets = []string{`("*", DcData)`}
+							}
+							s.nested[lv.Name] = append([]string{}, sets...)
+						}
+					}
 				}
 				continue
 			}
@@ -711,6 +784,7 @@ func (s *flowScope) stmt(st ast.Stmt) []flowNode {
 					continue
 				}
 				tn := flowTypeName(vs.Type)
+				qn := flowQualName(vs.Type)
 				for i, n := range vs.Names {
 					if len(vs.Values) > i {
 						out = append(out, s.assign([]ast.Expr{n}, []ast.Expr{vs.Values[i]}, true)...)
@@ -720,16 +794,31 @@ func (s *flowScope) stmt(st ast.Stmt) []flowNode {
 					case tn == "bool":
 						s.bools[n.Name] = true
 						out = append(out, flowNode{Kind: "Set", A: n.Name, C: "DcFalse"})
-					case tn == "Engine":
+					case qn == "engine.Engine":
 						s.class[n.Name] = "lengine"
-					case flowTypeClass[tn] != "":
-						s.class[n.Name] = flowTypeClass[tn]
+					case flowTypeClass[qn] != "":
+						s.class[n.Name] = flowTypeClass[qn]
 					}
 				}
 			}
 		}
 		return out
 	case *ast.ReturnStmt:
+		if len(v.Results) > 0 {
+			if id, ok := v.Results[0].(*ast.Ident); ok && s.ntype[id.Name] != "" {
+				var sets []string
+				for _, x := range s.nested[id.Name] {
+					if strings.Contains(x, "DcVar") { // a parameter / local of this function: unknown to the caller
+						x = x[:strings.Index(x, ", ")] + ", DcData)"
+					}
+					sets = append(sets, x)
+				}
+				if old, seen := s.ctx.retSets[s.fn.key]; seen && strings.Join(old, ";") != strings.Join(sets, ";") {
+					sets = []string{`("*", DcData)`}
+				}
+				s.ctx.retSets[s.fn.key] = sets
+			}
+		}
 		return append(s.exprs(v.Results), flowNode{Kind: "Ret"})
 	case *ast.BlockStmt:
 		return s.block(v.List)
@@ -962,8 +1051,40 @@ func flowBoolFields(f *ast.File, into map[string]map[string]bool) {
 	}
 }
 
+// build: the flow of one function (memoised; a function that is being built is not entered again)
+func (ctx *flowCtx) build(key string) []flowNode {
+	if b, ok := ctx.bodies[key]; ok {
+		return b
+	}
+	if ctx.busy[key] {
+		return nil
+	}
+	ctx.busy[key] = true
+	fn := ctx.fns[key]
+	sc := &flowScope{ctx: ctx, fn: fn, class: map[string]string{}, bools: map[string]bool{}, nested: map[string][]string{}, ntype: map[string]string{}}
+	if fn.recv != "" {
+		sc.class[fn.recv] = fn.rclass
+	}
+	types := flowParamTypes(fn.decl)
+	qtypes := flowParamTypesBy(fn.decl, flowQualName)
+	for i, p := range fn.params {
+		t := types[i]
+		if c := flowTypeClass[qtypes[i]]; c != "" && c != "action" {
+			sc.class[p] = c
+		}
+		if t == "bool" || t == "string" || t == "PostRenderer" {
+			sc.bools[p] = true
+		}
+	}
+	b := flowSimplify(sc.block(fn.decl.Body.List))
+	ctx.bodies[key] = b
+	delete(ctx.busy, key)
+	return b
+}
+
 func genDryFlow(repo string) (string, error) {
-	ctx := &flowCtx{fns: map[string]*flowFn{}, boolFld: map[string]map[string]bool{}}
+	ctx := &flowCtx{fns: map[string]*flowFn{}, boolFld: map[string]map[string]bool{}, bodies: map[string][]flowNode{},
+		busy: map[string]bool{}, retSets: map[string][]string{}}
 	for _, rel := range flowFiles {
 		f, _, err := parseFile(repo, rel)
 		if err != nil {
@@ -987,6 +1108,9 @@ func genDryFlow(repo string) (string, error) {
 					fn.recv = fd.Recv.List[0].Names[0].Name
 				}
 			}
+			if fd.Type.Results != nil && len(fd.Type.Results.List) > 0 {
+				fn.ret = flowQualName(fd.Type.Results.List[0].Type)
+			}
 			for _, p := range fd.Type.Params.List {
 				if len(p.Names) == 0 {
 					fn.params = append(fn.params, "_")
@@ -998,25 +1122,8 @@ func genDryFlow(repo string) (string, error) {
 			ctx.fns[fn.key] = fn
 		}
 	}
-	bodies := map[string][]flowNode{}
-	build := func(key string) []flowNode {
-		fn := ctx.fns[key]
-		sc := &flowScope{ctx: ctx, fn: fn, class: map[string]string{}, bools: map[string]bool{}, nested: map[string][]string{}, ntype: map[string]string{}}
-		if fn.recv != "" {
-			sc.class[fn.recv] = fn.rclass
-		}
-		types := flowParamTypes(fn.decl)
-		for i, p := range fn.params {
-			t := types[i]
-			if c := flowTypeClass[t]; c != "" && c != "action" {
-				sc.class[p] = c
-			}
-			if t == "bool" || t == "string" || t == "PostRenderer" {
-				sc.bools[p] = true
-			}
-		}
-		return flowSimplify(sc.block(fn.decl.Body.List))
-	}
+	bodies := ctx.bodies
+	build := ctx.build
 	var order []string
 	seen := map[string]bool{}
 	todo := append([]string{}, flowEntries...)
@@ -1031,7 +1138,7 @@ func genDryFlow(repo string) (string, error) {
 			return "", fmt.Errorf("function %s not found in %v", k, flowFiles)
 		}
 		order = append(order, k)
-		bodies[k] = build(k)
+		build(k)
 		var cs []string
 		flowCallees(bodies[k], &cs)
 		todo = append(todo, cs...)
